@@ -1652,6 +1652,12 @@ class CodedKern(Kern):
             new_suffix += f"_{name_idx}"
             new_name = old_base_name + new_suffix + "_mod.f90"
 
+            if config.kernel_naming == "single":
+                # The one shared copy is published atomically below (another
+                # run must never read a file that is not yet fully written),
+                # so do not create it here.
+                break
+
             try:
                 # Atomically attempt to open the new kernel file (in case
                 # this is part of a parallel build)
@@ -1688,9 +1694,25 @@ class CodedKern(Kern):
         new_kern_code = fll.process(new_kern_code)
 
         if not fdesc:
-            # If we've not got a file descriptor at this point then that's
-            # because the file already exists and the kernel-naming scheme
-            # ("single") means we're not creating a new one.
+            # The kernel-naming scheme is "single": write the complete kernel
+            # to a private temporary file and atomically link it to its final
+            # name. The link fails if that name already exists.
+            import tempfile
+            tmp_fd, tmp_path = tempfile.mkstemp(
+                dir=config.kernel_output_dir, prefix=new_name + ".",
+                suffix=".tmp")
+            try:
+                os.write(tmp_fd, new_kern_code.encode())
+                os.close(tmp_fd)
+                try:
+                    os.link(tmp_path, os.path.join(config.kernel_output_dir,
+                                                   new_name))
+                    return
+                except FileExistsError:
+                    pass
+            finally:
+                os.unlink(tmp_path)
+            # A (complete) transformed copy of this kernel already exists.
             # Check that what we've got is the same as what's in the file
             with open(os.path.join(config.kernel_output_dir,
                                    new_name), "r") as ffile:
